@@ -1,6 +1,6 @@
 (* Correspondence runner for the wire codec (C11, C12, byte half of C05). *)
 From Coq Require Export List NArith ZArith Bool String Uint63.
-From Mac Require Export Model.Caveat Model.Msgpack Model.Codec Generated.Facts Corr.Transport.
+From Mac Require Export Model.Caveat Model.Msgpack Model.Codec Model.TypedDec Generated.Facts Corr.Transport.
 Export ListNotations.
 
 Inductive mcase :=
@@ -13,7 +13,8 @@ Inductive mcase :=
 | KFramesHostile (input : bytes) (ok : bool) (frames : list (N * bytes))   (* DecodeCaveats on a damaged input: the library may refuse more
                                                                               than the frame level can see (typed bodies), never less *)
 | KJTypeRead (s : string) (t : N)                           (* caveat type obtained from the JSON "type" field s *)
-| KJTypePrint (t : N) (out : string).                       (* the "type" field written for a caveat of type t *)
+| KJTypePrint (t : N) (out : string)                        (* the "type" field written for a caveat of type t *)
+| KDecBody (ty : N) (body : bytes) (ok : bool) (reenc : bytes).   (* DecodeCaveats on 92 <ty> <body>: the one-caveat set re-encoded (typed lenient decoding, Model.TypedDec) *)
 
 Definition b2z (b : bool) : Z := if b then 1%Z else 0%Z.
 Definition zs (l : list N) : list Z := Z.of_nat (List.length l) :: map Z.of_N l.
@@ -36,6 +37,7 @@ Definition model_out (k : mcase) : list Z :=
                              | None => [0%Z] end
   | KJTypeRead s _ => [Z.of_N (type_from_json_al all_reg json_aliases f_cav_unregistered s)]
   | KJTypePrint t _ => zs (str_bytes (type_to_json all_reg f_cav_min_user_defined t))
+  | KDecBody ty body _ _ => match dec_body ty body with Some c => zo (enc_one c) | None => [0%Z] end
   end.
 
 Definition obs_out (k : mcase) : list Z :=
@@ -46,5 +48,6 @@ Definition obs_out (k : mcase) : list Z :=
   | KSkip _ ok n => if ok then [1%Z; Z.of_N n] else [0%Z]
   | KJTypeRead _ t => [Z.of_N t]
   | KJTypePrint _ o => zs (str_bytes o)
+  | KDecBody _ _ ok o => if ok then 1%Z :: zs o else [0%Z]
   end.
 Definition run (l : list mcase) := mismatches model_out obs_out l.
